@@ -63,13 +63,6 @@ type StepRes struct {
 	Findings []string `json:"findings,omitempty"`
 	// file histories: ms.Path after the operation
 	Path []string `json:"path,omitempty"`
-	// file histories: the first difference of any of the kinds above between the one value and the
-	// DOCUMENTED-SIDE-EFFECT twin (a refused Read replaced by AddPath(directory the file was found in),
-	// see worker.go) - only used to recognise the known finding D18-P1
-	DocDiff string `json:"doc_diff,omitempty"`
-	// file histories: the step differs from the strict twin and in no compared respect from the
-	// documented-side-effect twin: the differences of this step are the known finding D18-P1
-	DocExplains bool `json:"doc_explains,omitempty"`
 	// file histories, process / getmodule: the files the run read by itself through the search path
 	// (found path and text), for the session model (which has no search path: they travel as loads)
 	Implicit []FileSpec `json:"implicit,omitempty"`
@@ -80,10 +73,6 @@ type StepRes struct {
 type GoRes struct {
 	Steps    []StepRes `json:"steps"`
 	Findings []string  `json:"findings,omitempty"`
-	// file histories: how many refused Reads had found their file (the directory went on the search
-	// path), and how many steps differ from the documented-side-effect twin
-	DocSideEffects int `json:"doc_side_effects,omitempty"`
-	DocDiffs       int `json:"doc_diffs,omitempty"`
 }
 
 func newModules(h History) *yang.Modules {
@@ -746,7 +735,6 @@ func runAll(hs []History, f *lib.Flags) []Outcome {
 type diff struct {
 	kind, what string
 	goV, model any
-	known      string // id of the known finding that explains it
 }
 
 func compare(o Outcome) (violations, disagreements []diff) {
@@ -754,7 +742,6 @@ func compare(o Outcome) (violations, disagreements []diff) {
 		violations = append(violations, diff{kind: "spec", what: x, goV: o.Go.Findings})
 	}
 	for i, s := range o.Go.Steps {
-		first := len(violations)
 		opName := "process"
 		if o.H.Ops[i].Op == "getmodule" {
 			opName = "getmodule " + o.H.Ops[i].Name
@@ -789,11 +776,6 @@ func compare(o Outcome) (violations, disagreements []diff) {
 		if s.ShadowDiff != "" {
 			violations = append(violations, diff{kind: "spec", goV: s.ShadowDiff,
 				what: fmt.Sprintf("after op %d (%s %s): a load that fails leaves no trace - a lookup (modules by name / namespace; in a file history ms.Path; after a refused load or a walk the trees) is answered differently than by a Modules value that ran the same history without the refused loads: %s", i, o.H.Ops[i].Op, o.H.Ops[i].Name, s.ShadowDiff)})
-		}
-		if s.DocExplains {
-			for k := first; k < len(violations); k++ {
-				violations[k].known = "D18-P1"
-			}
 		}
 		if op := o.H.Ops[i]; op.Op == "load" && op.Fault != "" && s.Load == "accepted" {
 			disagreements = append(disagreements, diff{kind: "obligation", goV: s.Load,
@@ -998,9 +980,6 @@ func replay(f *lib.Flags) {
 		if s.FreshLoadDiff != "" {
 			fmt.Printf("op %d %s %s: answered DIFFERENTLY than by a fresh set: %s\n", i, op.Op, op.Name, s.FreshLoadDiff)
 		}
-		if s.DocDiff != "" {
-			fmt.Printf("op %d %s %s: differs from the documented-side-effect twin (D18-P1 does not explain it): %s\n", i, op.Op, op.Name, s.DocDiff)
-		}
 		for _, f := range s.Implicit {
 			fmt.Printf("op %d %s: read %s through the search path\n", i, op.Op, f.Path)
 		}
@@ -1053,16 +1032,10 @@ func replay(f *lib.Flags) {
 		fmt.Println("model:", o.Outside)
 	}
 	v, d := compare(o)
-	n := 0
 	for _, x := range append(v, d...) {
-		if x.known != "" {
-			fmt.Println("KNOWN FINDING "+x.known+":", x.what)
-			continue
-		}
-		n++
 		fmt.Println("DIFFERENT:", x.kind+":", x.what)
 	}
-	if n > 0 {
+	if len(v)+len(d) > 0 {
 		os.Exit(1)
 	}
 	fmt.Println("same")
@@ -1198,7 +1171,6 @@ func main() {
 	origins := map[string]int64{}
 	modes := map[string]int64{}
 	examined := 0
-	var nKnown int64
 	filesDist := map[string]int64{}
 	// in slices, so that a mass disagreement stops the run early
 	const slice = 2000
@@ -1229,33 +1201,9 @@ func main() {
 				outside++
 			}
 			viol, dis := compare(o)
-			// the known finding D18-P1 (see worker.go): a file history that differs from the strict twin
-			// and behaves in every step exactly like the documented-side-effect twin
-			// the known finding D18-P1 (see worker.go): the steps of a file history that differ from the
-			// strict twin and show exactly what the documented-side-effect twin shows
-			unexplained, hasKnown, keptKnown := 0, false, false
 			for _, v := range viol {
-				if v.known == "" {
-					unexplained++
-				} else {
-					hasKnown = true
-				}
-			}
-			if hasKnown {
-				nKnown++
-			}
-			for _, v := range viol {
-				if v.known != "" {
-					// (one record per history, of three histories: the records are for reading, the count
-					// is in the distribution)
-					if keptKnown || nKnown > 3 {
-						continue
-					}
-					keptKnown = true
-				} else {
-					examined++
-				}
-				res.AddDisagreement(lib.Disagreement{Kind: v.kind, Input: o.H, Go: v.goV, SpecVerdict: "violates", Known: v.known, What: v.what, Replay: o.H})
+				examined++
+				res.AddDisagreement(lib.Disagreement{Kind: v.kind, Input: o.H, Go: v.goV, SpecVerdict: "violates", What: v.what, Replay: o.H})
 			}
 			if o.H.fileMode() {
 				fileStats(o, filesDist)
@@ -1263,7 +1211,7 @@ func main() {
 			// the executable specification on the Go output: every process of the history gave what
 			// the batch run of the accepted texts on a fresh set gives, no rejected load left a trace
 			verdict := "holds"
-			if unexplained > 0 {
+			if len(viol) > 0 {
 				verdict = "violates"
 			}
 			for _, d := range dis {
@@ -1427,12 +1375,11 @@ func main() {
 	res.Distribution["refused_multi_statements_registered_before_the_refusal"] = multiHeads
 	res.Distribution["histories_by_arrival_order"] = origins
 	res.Distribution["file_histories"] = filesDist
-	res.Distribution["file_histories_tagged_D18-P1"] = nKnown
 	res.Distribution["histories_outside_model"] = outside
 	res.Distribution["crashes"] = crashes
 	res.Notes = append(res.Notes,
 		"EVERY REFUSED OFFER (a load or Read the one value answered with an error; in file histories the accepted ones too) is put to a FRESH value that took the accepted operations of the history so far (and, as texts, the files the shadow has read by itself): the two answers must agree - accepted / refused, and when refused the same set of (position, class) - whatever was refused before: a parser, buffer or table that is kept between texts and not reset by a failure (seeded change C18-m22: one parser per Modules, statementDepth survives a text with unbalanced braces; the next well-formed text is refused with `missing N closing brace(s)`) is a violation with the history as the failing input, not only a disagreement with the model",
-		"FILE HISTORIES compare the one value with the STRICT twin (shadow value + fresh value that run the history without every refused load and Read - a failed load leaves no trace: ms.Path after every operation, Process errors, trees, lookups, GetModule results, the answers to later offers, and through AddPath + Process what a later AddPath does) and with the model (the session machine has no search path: a Read travels as the load of the file it found, the files a run or a ToEntry read by itself travel as loads in front of that operation; AddPath / putfile are invisible to it); after a run that reports a missing module only errors and search path are compared with the fresh value (which other imports the aborted walk had registered depends on what was converted before); KNOWN FINDING D18-P1: on the unchanged tree Modules.Read leaves the directory of a file it found on ms.Path (and in pathMap) when Parse refuses the text - a step that differs from the strict twin carries the tag D18-P1 only when it shows, in every compared respect, exactly what the DOCUMENTED-SIDE-EFFECT twin shows (the same history with every refused Read that had found its file replaced by AddPath(directory of the file)); any other difference - a directory off ms.Path that AddPath still takes for present (seeded change C18-m21), a parser that remembers (C18-m22), a type generation that is not advanced after a run that could not link (C09-m22) - is reported; records of tagged steps: one per history, of three histories (count: file_histories_tagged_D18-P1)",
+		"FILE HISTORIES compare the one value with the STRICT twin (shadow value + fresh value that run the history without every refused load and Read - a failed load leaves no trace: ms.Path after every operation, Process errors, trees, lookups, GetModule results, the answers to later offers, and through AddPath + Process what a later AddPath does) and with the model (the session machine has no search path: a Read travels as the load of the file it found, the files a run or a ToEntry read by itself travel as loads in front of that operation; AddPath / putfile are invisible to it); after a run that reports a missing module only errors and search path are compared with the fresh value (which other imports the aborted walk had registered depends on what was converted before); D18-P1 (found by these histories, repaired in /repo 2488dfd): Modules.Read used to leave the directory of a file it had found on ms.Path and in pathMap when Parse refused the text - the witness is corpus/C18/d18p1-*.json and must be clean now; a directory off ms.Path that AddPath still takes for present (seeded change C18-m21), a parser that remembers (C18-m22), a type generation that is not advanced after a run that could not link (C09-m22) are reported with the history as the failing input",
 		"after EVERY operation (also right after an accepted or refused load, before the next Process) the lookups that need no processed trees - FindModuleByNamespace for every namespace in play and an unknown one, FindModule for every module / submodule name and name@revision and an unknown name - are put to the one value and to a SHADOW value that runs the same history (same Process, read and walk operations) without the loads the one value refused, and compared with the source position of what is returned (Go vs Go): a refused text leaves no trace for every later load, processing run and query; right after every REFUSED load (and after every walk; in the reads-everywhere histories after every operation) the whole READ BATTERY is put to both values and compared: the trees ToEntry answers with for every module and submodule (also the ones the refused text never mentioned) node by node, all fields incl. the resolved types, the errors recorded on them (GetErrors), the identity values reachable from the types of the nodes, the value list of every identity statement, Entry.Find from every module root to up to 12 nodes of its tree and across every import - a reader that comes before the next Process sees the processed trees (submodule nodes, augments, implied cases, deviations), not a raw conversion; a read op after a refused load is also answered by the session model from the finished Process (the registry is unchanged) and compared",
 		"after every Process the same queries are put to the one value and to the batch value and compared (Go vs Go; the session model has no such operations): FindModuleByNamespace for every namespace in play and an unknown one, FindModule for every module / submodule name and name@revision and an unknown name, Entry.Find from every module root to up to 12 nodes of its tree and across every import, GetModule of the first module (every third operation; it processes once more); Entry.Namespace and Entry.InstantiatingModule of every node are part of the dump (ns=, im=); the walk operation asks the namespace and name questions between loads as a perturbation",
 		"every process op is checked twice: Go (one value) vs Go (batch of the accepted texts on a fresh value) on an extended dump (all node fields, submodule trees, identity value lists with source positions), and Go vs the Lean session model on the projection "+strings.Join(keys, ",")+" + errors",
